@@ -12,6 +12,7 @@ mod c14;
 mod sess;
 mod sessgen;
 mod c07;
+mod drv;
 pub mod c13;
 mod c17;
 
@@ -37,7 +38,11 @@ fn main() {
         "C04" => c04::run,
         "C05" => c05::run,
         "C14" => c14::run,
+        "C06" => drv::run_c06,
         "C07" => c07::run,
+        "C08" => drv::run_c08,
+        "C11" => drv::run_c11,
+        "C12" => drv::run_c12,
         "C13" => c13::run,
         "C17" => c17::run,
         _ => {
